@@ -28,7 +28,7 @@ Segments == {"Move", "Line", "Close", "QuadraticBezier", "CubicBezier", "Arc"}
 Shapes   == {"Path", "PathT", "Rect", "RRect", "Circle", "Ellipse", "SimpleLine", "Polyline", "Polygon"}
 LenShapes == {"RectLen", "CircleLen"}      \* cannot be decomposed before they are rendered: only copy and * apply
 Groups   == {"Group", "GroupNested", "GroupMixed"}
-AllOps   == {"copy", "mul", "abs", "topath", "inv", "matmul", "add", "radd", "mulid"}
+AllOps   == {"copy", "mul", "abs", "topath", "inv", "matmul", "add", "radd", "mulid", "pathadd", "addpath"}
 OpsOf(k) ==
   {"copy"} \cup
   (IF k \in Segments \cup Shapes \cup LenShapes \cup Groups \cup {"Point", "Matrix", "Text", "Image", "Subpath"} THEN {"mul"} ELSE {}) \cup
@@ -36,11 +36,12 @@ OpsOf(k) ==
   (IF k \in Shapes \cup {"Subpath"} THEN {"topath"} ELSE {}) \cup
   (IF k = "Matrix" THEN {"inv", "matmul"} ELSE {}) \cup
   (IF k \in {"Path", "PathT", "Point", "Length"} \cup Segments THEN {"add"} ELSE {}) \cup
-  (IF k \in {"Path", "PathT"} THEN {"radd"} ELSE {}) \cup                                      \* "path data" + x
+  (IF k \in {"Path", "PathT"} THEN {"radd"} ELSE {}) \cup
+  (IF k \in Segments THEN {"pathadd", "addpath"} ELSE {}) \cup                                   \* Path + x, x + Path (x a segment)                                      \* "path data" + x
   (IF k \in Segments \cup Shapes \cup Groups \cup {"Point", "Text", "Image", "Subpath"} THEN {"mulid"} ELSE {})   \* x * identity
 ResultKind(k, o) ==
   IF o = "topath" THEN "Path"
-  ELSE IF o = "add" /\ k \in Segments THEN "Path"
+  ELSE IF o \in {"add", "pathadd", "addpath"} /\ k \in Segments THEN "Path"
   ELSE IF o \in {"mul", "mulid", "copy", "abs"} /\ k = "Subpath" THEN "Subpath"
   ELSE k
 AllMuts == {"setx", "imul", "seta", "post_translate", "reset", "imatmul", "setred", "setopacity", "iadd", "setamount", "imul_num",
